@@ -139,7 +139,7 @@ def r1(ctx):
     uniq = True
     for sp in storefacts.set_paths(ctx):
         for w in map_writes(sp):
-            if not is_counter_token(field_of(w["value"], "header", "cas")):
+            if not is_counter_token(field_of(w["value"], "header", "cas"), ctx):
                 uniq = False
     TOKENS_UNIQUE[0] = uniq
     subjects = []
@@ -199,22 +199,33 @@ def r2(ctx):
 def r3(ctx):
     rep = Report("C03.R3", "the CAS counter is advanced by a single atomic read-modify-write", floor=2)
     f = ctx.facts
-    b = f.one(MS + "::get_cas_id")
-    rep.analysed(b)
-    calls = [(bb, t) for bb, t in b.calls()]
-    names = [strip_generics(t.callee.path) for _, t in calls]
-    ok = len(calls) == 1 and names[0].endswith("::fetch_add")
-    rep.check(ok, "get_cas_id:single-fetch_add", "get_cas_id = one fetch_add", "get_cas_id is not a single fetch_add (%s): two stores can be handed the same token" % names, b.loc())
-    # census: every access to the cas_id field
-    n = 0
+    from rules import roles
+
+    R = roles.get(ctx)
+    counter = (F(P("self"), R.ms_cas), ("deref", F(P("self"), R.ms_cas)))
+    # every operation on the counter, on every path of every MemoryStore method (helpers inlined): only fetch_add(1), and at
+    # most one per store — a load/compute/store sequence (or two RMWs) lets two stores obtain the same token
+    n_ops = 0
+    for b in sorted((x for x in f.bodies.values() if x.impl_self == MS and x.kind == "assoc_fn" and x.impl_trait in (CACHE, IMPLD)), key=lambda x: x.path):
+        rep.analysed(b)
+        argn = [b.local_name(i) or "a%d" % i for i in b.arg_locals()]
+        for p in store_interp(f, loop_bound=1).run(b, [P("self")] + [P(n) for n in argn[1:]]):
+            ops = [e for e in p.events if e.kind == "call" and "tomic" in e.name and e.args and tform(e.args[0]) in counter]
+            n_ops += len(ops)
+            names = [e.name.split("::")[-1] for e in ops]
+            ok = all(n == "fetch_add" for n in names) and len(ops) <= 1 and all(e.args[1] == 1 for e in ops)
+            rep.check(ok, "get_cas_id:single-fetch_add", "token allocation = one fetch_add(1) on the cas counter", "a path of MemoryStore::%s operates on the cas counter with %s: the token is not allocated by a single atomic fetch_add(1), two stores can be handed the same token" % (b.name, names), b.loc())
+    rep.check(n_ops > 0, "cas-counter:used", "%d counter operations examined" % n_ops, "no operation on the cas counter found on any path of MemoryStore (cannot decide how tokens are allocated)", f.one(ms("set")).loc())
+    # census: the counter field is referenced only inside MemoryStore's own code
+    fld = R.ms_cas
     for body in f.bodies.values():
         if body.crate != "memcrs.lib":
             continue
         for bi, blk in enumerate(body.blocks):
             for s in blk.stmts:
-                if s.k == "assign" and s.rv.k == "ref" and s.rv.place.fields()[-1:] == ("cas_id",):
-                    n += 1
-                    rep.check(body.path in (MS + "::get_cas_id",), "cas_id-access:" + body.path, "cas_id touched only by get_cas_id", "cas_id is accessed in %s (outside get_cas_id)" % body.path, loc_s(s.span))
+                if s.k == "assign" and s.rv.k == "ref" and s.rv.place is not None and s.rv.place.fields()[-1:] == (fld,) and MS in body.local_ty(s.rv.place.local):
+                    own = (body.impl_self == MS) or body.path.startswith(MS + "::") or (body.root or "").startswith(MS + "::") or (body.root or "").startswith("<" + MS)
+                    rep.check(own, "cas_id-access:" + body.path, "cas counter touched only by MemoryStore", "the cas counter is accessed in %s (outside MemoryStore)" % body.path, loc_s(s.span))
     return rep
 
 
